@@ -327,7 +327,7 @@ theorem hist_step {cfg : Config} {s : St} {st : List (Nat × Announced)} {last :
           rw [List.append_assoc]
           rfl
   | fork pid tid ppid ptid t =>
-    obtain ⟨o1, o2, o3, o4⟩ := obs_fork hinv hr pid tid ppid ptid t
+    obtain ⟨o1, o2, o3, o4⟩ := obs_fork hinv pid tid ppid ptid t
     have hl : ∀ k, laterAnn false cfg k none (.fork pid tid ppid ptid t :: post) =
         laterAnn false cfg k none post := fun k => rfl
     have ha : (accStep (last, []) (.fork pid tid ppid ptid t)).1 = last := rfl
@@ -370,7 +370,7 @@ theorem hist_step {cfg : Config} {s : St} {st : List (Nat × Announced)} {last :
       exact ⟨⟨hsim', hlife', fun a => by rw [o1 a]; exact h.q a, fun a b => by rw [o1 a]; exact h.noff a b⟩,
         List.Perm.append_right _ (hist_same hn hn' o1 o2 hl)⟩
   | exit pid tid t =>
-    obtain ⟨o1, o2, o3, o4⟩ := obs_exit hinv hr pid tid t
+    obtain ⟨o1, o2, o3, o4⟩ := obs_exit hinv pid tid t
     have hX : expGo cfg st last (.exit pid tid t :: post) =
         expGo cfg (annStep cfg st (.exit pid tid t)) (accStep (last, []) (.exit pid tid t)).1 post := by
       simp only [expGo]
@@ -423,7 +423,7 @@ theorem hist_step {cfg : Config} {s : St} {st : List (Nat × Announced)} {last :
         · next e => rw [e]; exact Fp_congr cfg rfl rfl
         · rfl
   | comm pid tid name isExec t =>
-    obtain ⟨o1, o2, o3, o4⟩ := obs_comm hinv hr pid tid name isExec t
+    obtain ⟨o1, o2, o3, o4⟩ := obs_comm hinv pid tid name isExec t
     have hX : expGo cfg st last (.comm pid tid name isExec t :: post) =
         expGo cfg (annStep cfg st (.comm pid tid name isExec t))
           (accStep (last, []) (.comm pid tid name isExec t)).1 post := by
@@ -626,7 +626,7 @@ theorem sort_step {cfg : Config} {s : St} {st : List (Nat × Announced)} {last :
                 rw [hx, u3]; exact Nat.le_refl _
           · exact ((hs.mono ho.1).u a)
   | fork pid tid ppid ptid t =>
-    obtain ⟨o1, o2, _, _⟩ := obs_fork hinv hr pid tid ppid ptid t
+    obtain ⟨o1, o2, _, _⟩ := obs_fork hinv pid tid ppid ptid t
     refine ⟨T, ?_, by simpa [orderedFrom, queuedTime] using ho⟩
     by_cases hpp : pid ≠ ppid
     · simp only [if_pos hpp] at o1
@@ -640,7 +640,7 @@ theorem sort_step {cfg : Config} {s : St} {st : List (Nat × Announced)} {last :
     · simp only [if_neg hpp] at o1
       exact hs.same o1 o2
   | exit pid tid t =>
-    obtain ⟨o1, o2, _, _⟩ := obs_exit hinv hr pid tid t
+    obtain ⟨o1, o2, _, _⟩ := obs_exit hinv pid tid t
     refine ⟨T, ?_, by simpa [orderedFrom, queuedTime] using ho⟩
     by_cases hpt : pid = tid
     · simp only [if_pos hpt] at o1 o2
@@ -648,7 +648,7 @@ theorem sort_step {cfg : Config} {s : St} {st : List (Nat × Announced)} {last :
     · simp only [if_neg hpt] at o1 o2
       exact hs.setThr o1 o2
   | comm pid tid name isExec t =>
-    obtain ⟨o1, o2, _, _⟩ := obs_comm hinv hr pid tid name isExec t
+    obtain ⟨o1, o2, _, _⟩ := obs_comm hinv pid tid name isExec t
     refine ⟨T, ?_, by simpa [orderedFrom, queuedTime] using ho⟩
     cases isExec with
     | true =>
